@@ -362,6 +362,19 @@ def _tunnel(sock: socket.socket, host, port: int, auth) -> socket.socket:
     return sock
 
 
+_COOKIE_ATTRIBUTES = (
+    "expires",
+    "path",
+    "comment",
+    "domain",
+    "max-age",
+    "secure",
+    "httponly",
+    "version",
+    "samesite",
+)
+
+
 def read_headers(sock: socket.socket) -> tuple:
     status = None
     status_message = None
@@ -402,6 +415,11 @@ def read_headers(sock: socket.socket) -> tuple:
                 # a field name is ASCII; lower() must not fold anything else into one
                 raise WebSocketException("Invalid header")
             if key.lower() == "set-cookie" and headers.get("set-cookie"):
+                if value.split("=", 1)[0].strip().lower() in _COOKIE_ATTRIBUTES:
+                    # the lines are parsed as one string: a cookie named like
+                    # an attribute would be read as an attribute of the cookie
+                    # on the line before it (http.cookies cannot hold it anyway)
+                    continue
                 headers["set-cookie"] = (
                     headers.get("set-cookie") + "; " + value.strip(" \t")
                 )
